@@ -46,7 +46,7 @@ def cases(rng, tier, X):
                 ops.append('clock %d' % rng.choice([0, 500, 999, 1000, 1001, 2000, 2001, 3000, rng.randint(0, 5000)]))
         out.append(('seq%d' % k, ops))
     # universal automata schedule (all public calls, missing objects, near-colliding keys, bridged frames, every deadline): this check's predicate on it
-    for k in range(60 if tier == 'quick' else 6000):
+    for k in range(150 if tier == 'quick' else 6000):
         out.append(('au%d' % k, auto.schedule(rng)))
         if k % 3 == 0:
             out.append(('au2_%d' % k, auto.schedule2(rng)))      # two responders in one process, interleaved on the shared clock
